@@ -287,7 +287,7 @@ def reg(pid, theorems, run, assumptions):
     PROPS[pid] = dict(theorems=theorems, run=run, assumptions=assumptions)
 
 
-COMMON_S_THEOREMS = ["Props.acceptor_sound"]
+COMMON_S_THEOREMS = ["Props.acceptor_exact", "Props.acceptance_sound"]
 
 reg("C02", ["Props.C02_deps_before_start", "Props.C02_values_at_start", "Props.C01_core"] + COMMON_S_THEOREMS,
     lambda pid, tier, seed: run_S(pid, tier, seed), ASSUME_S)
@@ -486,7 +486,7 @@ def run_G(pid, tier, seed):
         if pid in ("C06", "C07") and rng.random() < 0.5 and sc["n"] >= 1:
             stats["cp_after_config"] += 1
             tgt = rng.randrange(sc["n"])
-            newp = rng.choice([-7, 4, 9, 50])
+            newp = rng.choice([0, 0, -7, 4, 9, 50])
             d.config_from_dict({"nodes": {"n%d" % tgt: {"priority": newp}}}) if not any(
                 (s["tag"] == "n%d" % tgt) or (isinstance(s["tag"], tuple) and "n%d" % tgt in s["tag"]) for s in sc["specs"]) else None
             prio2 = [d.exec_nodes[x].priority for x in ids_]
@@ -750,7 +750,8 @@ ASSUME_G = [
 
 PROPS["C06"]["run"] = run_S_and_G_C06
 reg("C07", ["Props.C07_cp_is_own_plus_distinct_descendants", "GM.C07_cp_order_independent", "GM.mem_descAll_iff",
-            "GM.descAll_nodup", "Props.C07_pinned_counts_paths", "GM.C07_pinned_order_dependent"],
+            "GM.descAll_nodup", "Props.C07_pinned_counts_paths", "GM.C07_pinned_order_dependent",
+            "Props.C07_next_pick_is_determined", "Props.C07_pick_unique"],
     run_G, ASSUME_G)
 reg("C12", ["GM.C12_closure", "Props.C12_selection_is_closure", "GM.selectNodes_none", "GM.mem_descAll_iff", "Props.C12_restriction_keeps_values"], run_G, ASSUME_G)
 
@@ -1272,8 +1273,15 @@ def run_C(pid, tier, seed):
             ins_alias = ... if ell else [alias(i) for i in ins]
             outs_alias = [alias(o) for o in outs]
             single = len(outs) == 1 and rng.random() < 0.5
+            before_counts = dict(C.COUNTS)
             real = C.real_compose(sc, d, outs_alias, ins_alias, vals, single)
             stats["compositions"] += 1
+            # setup results are taken from the original: a setup node the original has already run is not run again
+            rerun = [i for i in range(n) if sc["specs"][i].get("setup") and i not in ins
+                     and C.COUNTS.get(i, 0) > before_counts.get(i, 0)]
+            if rerun and real[0] == "OK":
+                failures.append(Failure("counterexample", "composed-dag-reran-setup-nodes-of-the-original", sc,
+                                        dict(case=dict(ins=ins, outs=outs), rerun=rerun), slice_="C"))
             if any(sc["specs"][o]["flag"] in ins for o in range(n) if sc["specs"][o]["flag"] is not None):
                 stats["with_flag_input"] += 1
             want = ("VALUEERROR", "ambiguous-alias") if ambiguous else C.oracle(sc, outs, ins, vals)
